@@ -33,6 +33,7 @@ def dispatch (line : String) : String :=
       | "macflush" => handleMacFlush args
       | "cntwin" => handleCnt args obs
       | "cntunw" => handleCnt args obs
+      | "cntexit" => handleCnt args obs
       | "cnthammer" => handleHammer args obs
       | "cntshared" => handleShared args obs
       | "life" => handleLife args obs
